@@ -83,6 +83,7 @@ def record(api, hist, ref):
 
     par = api.GLOBAL_PARAMETERS
     par.quadrature.regular, par.quadrature.singular = 4, 4
+    api.clear_fmm_cache()
     P = DefaultParameters()
     g = api.Grid(V, E)
     s = api.function_space(g, "P", 1)
@@ -103,6 +104,7 @@ def record(api, hist, ref):
                 fac = {"slp": lambda: api.operators.boundary.laplace.single_layer(s, s, s, parameters=pp),
                        "hyp": lambda: api.operators.boundary.laplace.hypersingular(s, s, s, parameters=pp),
                        "idt": lambda: api.operators.boundary.sparse.identity(s, s, s, parameters=pp),
+                       "fmm": lambda: api.operators.boundary.laplace.single_layer(s, s, s, assembler="fmm", parameters=pp),
                        "pot": lambda: api.operators.potential.laplace.single_layer(s, PTS, parameters=pp)}[kind]
                 ops[slot] = (kind, fac())
             elif call == "weak_form":
@@ -111,7 +113,10 @@ def record(api, hist, ref):
                 if slot in weak_obj and weak_obj[slot] is not w:
                     notes.append((n, "repeated weak_form() returned a different object"))
                 weak_obj[slot] = w
-                res = classify(w.to_dense(), ref, "weak_%s_" % kind)
+                if kind == "fmm":      # matrix-free: apply to the unit vectors; with the exact backend it is the dense single layer of its effective orders
+                    res = classify(np.asarray(w @ np.eye(w.shape[1])), ref, "weak_slp_")
+                else:
+                    res = classify(w.to_dense(), ref, "weak_%s_" % kind)
             elif call == "strong_form":
                 kind, op = ops[slot]
                 sf = op.strong_form().to_dense()
@@ -122,6 +127,8 @@ def record(api, hist, ref):
                             if close(sf, np.linalg.solve(ref["mass_%d" % m], ref[k])):
                                 res.append([int(x) for x in k[len("weak_%s_" % kind):].split("_")] + [m])
                 res = res or [[-1]]
+            elif call == "clear_fmm":
+                api.clear_fmm_cache()
             elif call == "mass_matrix":
                 res = classify(s.mass_matrix().to_dense(), ref, "mass_")
             elif call == "evaluate":
